@@ -47,9 +47,13 @@ Definition size_matches (fb : flat) : bool :=
   end.
 
 (** F0: one crossing of non-derived factors, all weights 1, every other factor
-    a non-derived independent factor, no constraint that needs rejection, no
-    exclusion; any number of trials (full rounds plus a leftover). *)
+    a non-derived independent factor with at least one level, no constraint that
+    needs rejection, no exclusion; any number of trials (full rounds plus a
+    leftover). *)
+Definition nonempty_levels (fb : flat) : bool :=
+  forallb (fun fd => 0 <? length (ff_levels fd)) (fl_design fb).
+
 Definition frag0 (fb : flat) : bool :=
   single_plain_crossing fb && no_rejecting_constraints fb && no_exclusions fb && all_active fb
-  && all_basic fb && unit_weights fb && plain_geometry fb && size_matches fb.
+  && all_basic fb && unit_weights fb && plain_geometry fb && size_matches fb && nonempty_levels fb.
 
